@@ -21,7 +21,8 @@ CLAIMED = {
              'z3 decides the enthalpy/entropy integral identities against an independently written antiderivative, Cp '
              'reproduction, reference values, G = H - S and order independence on every path of the real constructors '
              'and getters; placement obligations (concrete 2-4 point tables) and shipped groups (their real FITPACK spline '
-             'as an exact piecewise polynomial) keep T_ref/T symbolic. Bounded model checking.',
+             'as an exact piecewise polynomial) keep T_ref/T symbolic; in the thorough tier the largest integrals are split over the '
+             'position of T and T_ref relative to the table span. Bounded model checking.',
         note='float := real; FITPACK/QUADPACK/np.log behind PolySpline/QuadStub/uninterpreted LN (validated concretely); '
              'obligations that exhaust their budget are reported inconclusive',
         technique=A + 'nonlinear real arithmetic, uninterpreted LN with ratio axioms', ref='DESIGN.md 4/C05'),
@@ -37,7 +38,8 @@ CLAIMED = {
     'C07': dict(
         text='For every key of the installed gas-constant table, z3 shows for all real T and non-dimensional values that '
              'H, S, Cp, G are the stated products; the elemental-entropy clause is decided for all molecules of <= 4 '
-             'atoms over six elements with symbolic hydrogen count. Bounded.',
+             'atoms over six elements with symbolic hydrogen count, through the non-dimensional and the dimensional getters of '
+             'the estimate class. Bounded.',
         note='float := real; fake Chem (AddHs/GetAtoms/GetAtomicNum) validated against RDKit',
         technique=A + 'symbolic reals; unit table enumerated as configuration', ref='DESIGN.md 4/C07'),
     'C09': dict(
@@ -86,11 +88,13 @@ CLAIMED = {
         text='Renumbering-equivariance of the same Python layer: for every molecule/match configuration in the bound and every '
              'renumbering and match order, the descriptors (or the failure) are unchanged; correction-descriptor counts are '
              'invariant under index shifts (real set iteration order). What RDKit does between the string and the graph is '
-             'assumed; random SMILES spellings are replayed concretely.',
+             'assumed; random SMILES spellings and molecule-object inputs (implicit / all / one explicit hydrogen, asked twice) are '
+             'replayed concretely.',
         note='same fakes as C02', technique=A + 'solver-enumerated configurations and permutations', ref='DESIGN.md 4/C03'),
     'C04': dict(
         text='Additivity of the Python layer under a local matcher: for all component configurations in the bound, descriptors '
-             'of the disjoint union equal the sum, and the pair fails iff a component fails.',
+             'of the disjoint union equal the sum (also when a correction descriptor carries a group\'s name), the pair fails iff a '
+             'component fails, and the Benson ring pretreatment of two disconnected rings equals that of each ring alone.',
         note='locality of RDKit matching assumed; shipped schemes checked at run time to use no molecule-level prefix',
         technique=A + 'solver-enumerated configurations', ref='DESIGN.md 4/C04'),
     'C08': dict(
@@ -115,7 +119,8 @@ CLAIMED = {
         technique=A + 'inductive step over symbolic states', ref='DESIGN.md 4/C13'),
     'C15': dict(
         text='Every history of <= 4-6 operations (decompose, estimate+evaluate, merge, construct scheme) on real Library/Scheme/'
-             'estimator objects over stubbed chemistry, followed by probes whose expected values are computed analytically.',
+             'estimator objects over stubbed chemistry, followed by probes (estimate from the first and from a repeated '
+             'decomposition, new decomposition, library contents, default scheme) whose expected values are computed analytically.',
         note='chemistry stubbed; API-level replay with BensonGA and real RDKit', technique=A + 'symbolic operation histories '
              '(bounded model checking)', ref='DESIGN.md 4/C15'),
     'C16': dict(
@@ -140,7 +145,7 @@ CLAIMED = {
         technique=A + 'solver-enumerated small integers', ref='DESIGN.md 4/C19'),
     'C20': dict(
         text='z3 shows that the radicand handed to sqrt equals RMSE^2 * x.M.x for symbolic real counts and RMSE (concrete '
-             'and symbolic 3x3 M; for the three shipped uncertainty libraries the WHOLE count vector over the basis, 66-75 reals at once), '
+             'and symbolic 3x3 M, and counts from a grid incl. fractional values; for the three shipped uncertainty libraries the WHOLE count vector over the basis, 66-75 reals at once), '
              'that scaling multiplies it by c^2, that mapping order and the order of two libraries are irrelevant and that an '
              'out-of-basis descriptor raises. Bounded in the synthetic part; the shipped part is universal over the count vector.',
         note='numpy behind a list-based array shim; sqrt uninterpreted; the real numpy path is replayed concretely',
